@@ -65,6 +65,37 @@ def noisy_density(gates_j, n, errors):
     return rho
 
 
+def noisy_branches(gates_j, n, errors):
+    """Circuits with MEASURE gates: {string of mid-circuit outcomes: unnormalised density matrix of that branch}."""
+    psi = R.zero_state(n)
+    branches = {"": np.outer(psi, psi.conj())}
+    for j in gates_j:
+        if j[0] == "MEASURE":
+            q = j[1][0]
+            new = {}
+            for s, rho in branches.items():
+                for b in (0, 1):
+                    P = R.embed_unitary(np.diag([1.0 - b, float(b)]).astype(complex), [q], n)
+                    r = P @ rho @ P
+                    if np.trace(r).real > 1e-13:
+                        new[s + str(b)] = r
+            branches = new
+            continue
+        g = C.j_to_ref(j)
+        U = R.unitary([g], n)
+        touched = list(j[1]) + list(j[2] or [])
+        for s in branches:
+            rho = U @ branches[s] @ U.conj().T
+            for nt, prm in errors.get(j[0], []):
+                if nt == "pauli":
+                    for q in touched:
+                        rho = pauli_channel(rho, n, q, *prm)
+                else:
+                    rho = depol_channel(rho, n, touched, prm)
+            branches[s] = rho
+    return branches
+
+
 class NoiseWorld(World):
     name = "noise"
     props = ("C19",)
@@ -158,8 +189,12 @@ class NoiseWorld(World):
         bi = rng.randrange(8)
         noisy = sorted(self.backends[bi % len(self.backends)]["m"]["errors"])
         gates = self._gen_circuit(rng, n, noisy)
-        if r < 0.8:
+        if r < 0.72:
             return {"k": "sim", "b": bi, "gates": gates, "n": n}
+        if r < 0.82:
+            for _ in range(rng.randint(1, 2)):
+                gates.insert(rng.randint(0, len(gates)), ["MEASURE", [rng.randrange(n)], None, "", False])
+            return {"k": "simm", "b": bi, "gates": gates, "n": n, "mode": rng.choice(["plain", "save", "desired", "desired"]), "pick": rng.randrange(8)}
         terms = []
         for _ in range(rng.randint(1, 3)):
             qs = sorted(rng.sample(range(n), rng.randint(1, n)))
@@ -281,6 +316,8 @@ class NoiseWorld(World):
             ctx.outcome(k, "skipped-invalid-model")
             return V
         b, ns = be["b"], be["ns"]
+        if k == "simm":
+            return self._simm(op, b, ns, me, circ, snap)
         rho = noisy_density(gates_j, n, me["errors"])
         diag = {R.bitstr(i, n): float(rho[i, i].real) for i in range(2 ** n) if rho[i, i].real > 1e-13}
         if k == "sim":
@@ -339,6 +376,98 @@ class NoiseWorld(World):
                                    {"got": complex(got), "exact": exact, "bound": bound, "n_shots": ns, "errors": me["errors"], "gates": gates_j, "terms": op["terms"]}))
             return V
         raise HarnessError(k)
+
+    def _simm(self, op, b, ns, me, circ, snap):
+        """Noisy simulation of circuits with mid-circuit MEASURE gates: unconditioned, recorded, and post-selected."""
+        ctx, V, n, gates_j, mode = self.ctx, [], op["n"], op["gates"], op["mode"]
+        br = noisy_branches(gates_j, n, me["errors"])
+        n_meas = sum(1 for j in gates_j if j[0] == "MEASURE")
+        kw, desired = {}, None
+        if mode == "save":
+            kw = {"save_mid_circuit_meas": True}
+        elif mode == "desired":
+            cands = sorted(s for s, r in br.items() if np.trace(r).real >= 0.05)
+            if not cands:
+                ctx.outcome("simm", "skipped")
+                return V
+            desired = cands[op["pick"] % len(cands)]
+            kw = {"desired_meas_result": desired}
+        site = "simulate(noisy,%s)" % mode
+        try:
+            f, _ = b.simulate(circ, **kw)
+        except Exception as ex:
+            ctx.outcome("simm", "refused-unexpectedly")
+            return [Violation("C19", "unexpected-refusal", site, {"exception": repr(ex)[:200], "op": op, "errors": me["errors"]})]
+        ctx.outcome("simm", "ok:" + mode)
+        ctx.check("C19.sampled_with_mid_circuit_measurement")
+        ctx.probe("C19.noisy_mid_circuit." + mode)
+        self.sig.add(("simm", mode, n, n_meas, len(me["errors"])))
+        f = {kk: float(v) for kk, v in f.items()}
+        if desired is not None:
+            rho = br[desired] / np.trace(br[desired]).real
+        else:
+            rho = sum(br.values())
+        diag = {R.bitstr(i, n): float(rho[i, i].real) for i in range(2 ** n) if rho[i, i].real > 1e-13}
+
+        def judge(freqs, dist, width, what):
+            if not D.is_shot_histogram(freqs, ns) or any(len(kk) != width for kk in freqs):
+                return [Violation("C19", "not-a-shot-histogram", site + ":" + what, {"frequencies": dict(list(freqs.items())[:6]), "n_shots": ns})]
+            for kk in freqs:
+                if dist.get(kk, 0.0) < 1e-12:
+                    return [Violation("C19", "sample-outside-support", site + ":" + what, {"sample": kk, "errors": me["errors"], "gates": gates_j, "desired": desired})]
+            for kk, p in dist.items():
+                if not D.sigma_ok(freqs.get(kk, 0.0), p, ns):
+                    return [Violation("C19", "sampled-distribution-differs", site + ":" + what, {"bitstring": kk, "p": p, "f": freqs.get(kk, 0.0), "n_shots": ns,
+                                                                                                  "errors": me["errors"], "gates": gates_j, "desired": desired})]
+            return []
+        joint = {s + R.bitstr(i, n): float(r[i, i].real) for s, r in br.items() for i in range(2 ** n) if r[i, i].real > 1e-13}
+        middist = {s: float(np.trace(r).real) for s, r in br.items()}
+        if desired is not None:
+            # As for noiseless MEASURE-only programs (DESIGN 12, F6): with a shot budget the implementation draws n_shots raw
+            # shots and post-selects them.  The records must be an exact account of that: all_frequencies a histogram of
+            # n_shots shots following the joint law, the returned frequencies its post-selected, renormalised recount.
+            allf = {kk: float(v) for kk, v in (b.all_frequencies or {}).items()}
+            V += judge(allf, joint, n_meas + n, "all_frequencies")
+            if V:
+                return V
+            mass = sum(v for kk, v in allf.items() if kk[:n_meas] == desired)
+            rec = {}
+            for kk, v in allf.items():
+                if kk[:n_meas] == desired:
+                    rec[kk[n_meas:]] = rec.get(kk[n_meas:], 0.0) + v / mass
+            if any(abs(rec.get(kk, 0) - f.get(kk, 0)) > 1e-9 for kk in set(rec) | set(f)):
+                V.append(Violation("C19", "post-selected-frequencies-differ-from-recount", site, {"returned": f, "recount": rec, "desired": desired}))
+            for kk in f:
+                if diag.get(kk, 0.0) < 1e-12:
+                    V.append(Violation("C19", "sample-outside-support", site + ":frequencies", {"sample": kk, "desired": desired, "gates": gates_j, "errors": me["errors"]}))
+                    break
+            if b.n_shots != ns:
+                V.append(Violation("C19", "backend-configuration-changed", site, {"n_shots": b.n_shots, "expected": ns}))
+            if C.snap_circuit(circ) != snap:
+                V.append(Violation("C19", "source-circuit-mutated", site, {"op": op}))
+            return V
+        V += judge(f, diag, n, "frequencies")
+        if V:
+            return V
+        if mode == "save":
+            allf = {kk: float(v) for kk, v in (b.all_frequencies or {}).items()}
+            mid = {kk: float(v) for kk, v in (b.mid_circuit_meas_freqs or {}).items()}
+            V += judge(allf, joint, n_meas + n, "all_frequencies")
+            V += judge(mid, middist, n_meas, "mid_circuit_meas_freqs")
+            if not V:
+                # the three views are marginals of the same shots
+                marg, margm = {}, {}
+                for kk, v in allf.items():
+                    marg[kk[n_meas:]] = marg.get(kk[n_meas:], 0.0) + v
+                    margm[kk[:n_meas]] = margm.get(kk[:n_meas], 0.0) + v
+                if any(abs(marg.get(kk, 0) - f.get(kk, 0)) > 1e-9 for kk in set(marg) | set(f)) or \
+                        any(abs(margm.get(kk, 0) - mid.get(kk, 0)) > 1e-9 for kk in set(margm) | set(mid)):
+                    V.append(Violation("C19", "views-of-the-same-shots-disagree", site, {"frequencies": f, "all": allf, "mid": mid}))
+        if b.n_shots != ns:
+            V.append(Violation("C19", "backend-configuration-changed", site, {"n_shots": b.n_shots, "expected": ns}))
+        if C.snap_circuit(circ) != snap:
+            V.append(Violation("C19", "source-circuit-mutated", site, {"op": op}))
+        return V
 
     @staticmethod
     def _is_zero(lst):
